@@ -340,6 +340,20 @@ pub fn check_c05(case: &RCase, log: &RunLog, m: &Modelled) -> Vec<Violation> {
     if log.end != RunEnd::Completed {
         return out;
     }
+    // "while other scenarios keep running meanwhile": a retry waiting out its delay must not keep
+    // ready concurrent scenarios from being dispatched into free slots
+    if let Some((n_ev, msg)) = refill_violation(case, log, m) {
+        let waiting_retry = m.attempts.iter().find(|a| {
+            let delayed = case.sc(&a.scenario).and_then(|s| s.retry).and_then(|r| r.1).is_some();
+            let finished_before = a.finished.is_some_and(|f| f < n_ev);
+            let will_retry = a.retries.is_some_and(|r| r.1 > 0) && attempt_failed_observed(a, log);
+            let next_started_before = m.attempts.iter().any(|b| b.scenario == a.scenario && b.retries.map(|r| r.0) == a.retries.map(|r| r.0 + 1) && b.started.is_some_and(|i| i < n_ev));
+            delayed && finished_before && will_retry && !next_started_before
+        });
+        if let Some(a) = waiting_retry {
+            out.push(v("C05/others-held-back-during-retry-delay", format!("while the retry of {} {:?} was waiting out its delay: {msg}", a.scenario, a.retries)));
+        }
+    }
     let tripped = fail_fast_tripped(case, m, log);
     let mut per: BTreeMap<&str, Vec<&Attempt>> = BTreeMap::new();
     for a in &m.attempts {
@@ -493,7 +507,22 @@ pub fn check_c06(case: &RCase, log: &RunLog, m: &Modelled) -> Vec<Violation> {
         }
     }
     // (d) refill (R5)
-    if log.end == RunEnd::Completed {
+    if let Some((_, msg)) = refill_violation(case, log, m) {
+        out.push(v("C06/refill", msg));
+    }
+    let _ = max;
+    out
+}
+
+/// Refill obligation (R5): at a quiescent point after a completion, with parsing finished, no
+/// serial scenario ready or running and fail-fast not tripped, free slots must have been filled
+/// with the concurrent scenarios that are ready. Returns the number of events received before the
+/// offending quiescent point and a description.
+pub fn refill_violation(case: &RCase, log: &RunLog, m: &Modelled) -> Option<(usize, String)> {
+    if log.end != RunEnd::Completed {
+        return None;
+    }
+    let limit = case.effective_conc();
         let pf_idx = log.events.iter().find(|e| matches!(e.k, EvKind::ParsingFinished { .. })).map(|e| e.idx);
         let ff = first_final_failure(m, log).map(|x| x.0);
         // A serial scenario waives the refill obligation (R5) while it is ready or running: unstarted,
@@ -556,16 +585,13 @@ pub fn check_c06(case: &RCase, log: &RunLog, m: &Modelled) -> Vec<Violation> {
             // only scenarios that do start later are certain to have been ready (fail-fast excluded above)
             let waiting: Vec<&&str> = waiting.into_iter().filter(|s| first_started.contains_key(**s)).collect();
             if !waiting.is_empty() {
-                out.push(v(
-                    "C06/refill",
+                return Some((
+                    n_ev,
                     format!("after a completion, at quiescent round {} only {in_flight} attempts are in flight (limit {limit:?}) although concurrent scenarios {waiting:?} are ready and unstarted", q.round),
                 ));
-                break;
             }
         }
-    }
-    let _ = max;
-    out
+    None
 }
 
 pub fn nt_c06(case: &RCase, log: &RunLog) -> bool {
